@@ -81,7 +81,8 @@ def gen_scenario(rng, tier, big=False):
         files.append({'name': 'f1.log', 'content': gen_content(rng, tier).hex()})
     scn = {'files': files, 'defs': defs,
            'regs': [[i, k] for i in range(len(defs)) for k in range(len(files))],
-           'decode_errors': rng.choice([None, None, 'ignore', 'replace', 'backslashreplace'])}
+           'decode_errors': rng.choice([None, None, 'ignore', 'replace', 'backslashreplace',
+                                          'surrogateescape'])}
     if scn['decode_errors'] is None:
         del scn['decode_errors']
     if rng.random() < 0.6:
